@@ -43,9 +43,29 @@ VALUE_TYPES = ("allocator::NodePtr", "BigInt", "number::", "std::vec::Vec<u8>", 
                "allocator::Atom", "reduction::Reduction", "std::string::String", "&str")
 
 
+PURE_LOCAL = set()   # local functions that only do integer arithmetic on their arguments (filled per crate)
+
+
+def find_pure_local(cr):
+    """private helpers like `fn atom_hash_cost(len, rate) -> Cost { (len + 1) * rate }`: integer result, no calls, no
+    references in or out: extracting cost arithmetic into one must not change any verdict"""
+    out = set()
+    for p, g in cr.fns.items():
+        if "{closure" in p or g.nargs == 0:
+            continue
+        if g.local_ty(0) not in ("u64", "usize", "u32"):
+            continue
+        if any(not g.local_ty(i) in ("u64", "usize", "u32", "u8", "bool", "i32", "i64") for i in range(1, g.nargs + 1)):
+            continue
+        if any(g.term(b)["k"] in ("call", "drop") for b in g.reachable_blocks()):
+            continue
+        out.add(p)
+    return out
+
+
 def is_cost_helper(c):
     c = c or ""
-    return c in COST_HELPERS or fr.is_pure_callee(c) or any(c.endswith(s) for s in COST_HELPER_SUFFIXES)
+    return c in PURE_LOCAL or c in COST_HELPERS or fr.is_pure_callee(c) or any(c.endswith(s) for s in COST_HELPER_SUFFIXES)
 
 
 def cost_sinks_only(f, seeds):
@@ -178,6 +198,8 @@ def run(ctx):
     cr = ctx.crate("default")
     ck.rule("R11", "code that runs under only one cost model calls only cost helpers and defines only values that flow to cost sinks")
     ck.assume("split accumulators in op_add/op_subtract/binop_reduction: equality of the sums is arithmetic, not decided")
+    PURE_LOCAL.clear()
+    PURE_LOCAL.update(find_pure_local(cr))
     n = 0
     for f in sorted(cr.fns.values(), key=lambda x: x.path):
         if is_test_fn(f) or f.d["kind"] == "Closure":
